@@ -152,6 +152,11 @@ def encFq (x : Fq) : List UInt8 := encLE 32 x.v
 def decFq (bs : List UInt8) : Option Fq :=
   if h : bs.length = 32 ∧ decLE bs < q then some ⟨decLE bs, h.2⟩ else none
 
+/-- the two revocation-pair calls with the executed hash, as named terms (`Props/Sha3Inst.lean` is about these) -/
+def execRevPairDecode (lock secret : Fq) (index : Nat) : Except RevErr (RevPair Fq) :=
+  revPairDecode Sha3.sha3_256 decFq encFq lock secret index
+def execRevPairNew (s : St) : Option (RevPair Fq × St) := revPairNew Sha3.sha3_256 decFq encFq s
+
 def tRevPair (p : RevPair Fq) : String := join [tV "ok", tS p.lock, tS p.secret, tN p.index]
 
 /-- a customer `State` as 7 request fields: cid nonce lock secret index cb mb -/
@@ -378,12 +383,12 @@ def dispatch (args : List String) : Option String :=
       | none => pure (tV "none")
   -- the same two with the executed hash: the driver computes SHA3(secret ‖ index) itself, nothing is supplied
   | ["revpair-decode-sha3", lock, secret, index] => do
-      match revPairDecode Sha3.sha3_256 decFq encFq (← parseFq lock) (← parseFq secret) (← parseHex index) with
+      match execRevPairDecode (← parseFq lock) (← parseFq secret) (← parseHex index) with
       | .ok p => pure (tRevPair p)
       | .error .invalidSecret => pure (tV "invalid-secret")
       | .error .mismatchedPair => pure (tV "mismatched-pair")
   | ["revpair-new-sha3", stream] => do
-      match revPairNew Sha3.sha3_256 decFq encFq (← parseStream stream) with
+      match execRevPairNew (← parseStream stream) with
       | some (p, rest) => pure (join [tRevPair p, tN rest.length])
       | none => pure (tV "none")
   | ["ped-gen1", n, stream] => do
